@@ -49,7 +49,7 @@ def updServiceResult (env : Env) (result : JVal) (t : Tetraplet) (argHash : Stri
 
 /-- a `Failed` state found in the merged data is re-emitted -/
 def updPrevFailed (t : Tetraplet) (failedCid : Cid) (st : CallResult) (c : Ctx) : Ctx :=
-  let c := ({ c with subgraphComplete := false }).recordCallCid t.peerPk failedCid
+  let c := c.recordCallCid t.peerPk failedCid
   { c with th := c.th.meetCallEnd st }
 
 def updDropResult (key : String) (c : Ctx) : Ctx :=
